@@ -859,9 +859,10 @@ func partH(f *lib.Flags, res *lib.Result, distinct *lib.Distinct, work string) i
 	if f.Thorough() {
 		nRand = 40000
 	}
-	rng := f.Rand(3)
+	rng, rngName := f.Rand(3), f.Rand(6)
 	for i := 0; i < nRand; i++ {
-		cases = append(cases, randHistory(rng))
+		// (a third of them under a renaming foo -> N, fo -> T of a name family, names.go)
+		cases = append(cases, maybeRenameHist(rngName, randHistory(rng)))
 	}
 	// one directory in several spellings, entries added by findFile itself (spell.go)
 	sp := enumSpellHistories(f.Thorough())
